@@ -1458,6 +1458,61 @@ static void c18_case(vf::Rng& r) {
   if (back2.HasParseError() || !(back2 == pa) || !(pa == back2) || !(back2 == sa)) vf::violation("parse-of-dump-not-equal", "malloc document");
 }
 
+// C18: equality must keep holding when the document a value came from goes through later events.  B takes values from A
+// (default CopyFrom, CopyFrom with copyString, nodes moved out - A and B live on one pool), a deep copy C of B and a fresh
+// parse P of the same text are the witnesses; then A is parsed again with a shorter text, or destroyed.
+static vf::Counter c18_src("equality-after-source-document-events");
+static void c18_source_events_case(vf::Rng& r) {
+  jm::GenOpts go;
+  go.max_depth = 3;
+  JVal v = jm::gen_document(r, go);
+  if (v.k != JVal::Obj && v.k != JVal::Arr) v = JVal::arr();
+  if (v.k == JVal::Arr) { v.a.push_back(JVal::str(std::string(r.range(1, 40), 's'))); JVal o = JVal::obj(); o.o.emplace_back("name" + std::to_string(r.below(100)), JVal::str("value")); v.a.push_back(o); }
+  else { v.o.emplace_back("sname" + std::to_string(r.below(100)), JVal::str(std::string(r.range(1, 40), 't'))); }
+  if (jm::has_dup_keys(v)) return;
+  std::string text = jm::render_compact(v);
+  c18_src.add();
+  vf::eval();
+  vf::witness(text);
+  vf::distinct(vf::hash_str(text) ^ r.s);
+  bool freeing = r.coin();
+  bool ok = true;
+  std::string what;
+  auto body = [&](auto* docp) {
+    using Doc = typename std::remove_pointer<decltype(docp)>::type;
+    using NodeT = typename Doc::NodeType;
+    typename Doc::Allocator shared;
+    Doc b(&shared), p(&shared);
+    p.Parse(text.data(), text.size());
+    int how = (int)r.below(3);
+    {
+      std::unique_ptr<Doc> a(new Doc(&shared));
+      a->Parse(text.data(), text.size());
+      if (a->HasParseError() || p.HasParseError()) return;
+      if (how == 0) { b.CopyFrom(*a, shared); what = "CopyFrom(default)"; }
+      else if (how == 1) { b.CopyFrom(*a, shared, true); what = "CopyFrom(copyString)"; }
+      else {  // move the children out one by one (pool documents only: the strings stay in the shared pool)
+        if (freeing) { b.CopyFrom(*a, shared, true); what = "CopyFrom(copyString)"; }
+        else {
+          what = "children moved out";
+          if (a->IsArray()) { b.SetArray(); for (size_t i = 0; i < a->Size(); i++) b.PushBack(std::move((*a)[i]), shared); }
+          else { b.SetObject(); for (auto it = a->MemberBegin(); it != a->MemberEnd(); ++it) b.AddMember(it->name.GetStringView(), std::move(it->value), shared, true); }
+        }
+      }
+      NodeT c(b, shared, true);
+      bool eq0 = (b == c) && (c == b) && (b == p) && (p == b);
+      // the source goes through its events
+      if (r.coin()) { std::string t2 = "[" + std::to_string(r.below(10)) + "]"; a->Parse(t2.data(), t2.size()); what += ", source parsed again"; }
+      else { a.reset(); what += ", source destroyed"; }
+      bool eq1 = (b == c) && (c == b) && (b == p) && (p == b);
+      std::string d1 = b.Dump(), d2 = p.Dump();
+      if (!eq0 || !eq1 || d1 != d2) ok = false;
+    }
+  };
+  if (freeing) body((su::SimpleDoc*)nullptr); else body((su::PoolDoc*)nullptr);
+  if (!ok) vf::violation("equality-lost-after-source-event:" + std::string(freeing ? "freeing" : "pool"), what + "; text " + vf::printable(text, 200));
+}
+
 #ifndef VF_FUZZ_TARGET
 int main(int argc, char** argv) {
   for (int i = 1; i + 1 < argc; i++)
@@ -1478,6 +1533,7 @@ int main(int argc, char** argv) {
     S.push_back({"pairs_and_triples", 60000, 3000000, [trim_pool](uint64_t, vf::Rng& r) { c18_case(r); trim_pool(); }});
     S.push_back({"long_shared_prefix_keys", 8000, 400000, [trim_pool](uint64_t, vf::Rng& r) { c18_longkey_case(r); trim_pool(); }});
     S.push_back({"node_vs_scalar", 4000, 100000, [](uint64_t, vf::Rng& r) { c18_scalar_case(r); }});
+    S.push_back({"equality_after_source_events", 8000, 300000, [](uint64_t, vf::Rng& r) { c18_source_events_case(r); }});
   }
   return vf::run(argc, argv, S);
 }
